@@ -79,6 +79,26 @@ func (g *gen) aliasHarness(m *Message, f *Field) {
 	g.p("\tvhNoAlias_%s(\"noalias\", x, buf)", n)
 	g.p("}")
 	g.p("")
+	if f.Kind == "bytes" && f.Card != "map" {
+		g.p("// a single record for the field (payload possibly EMPTY, which canonical encodings never contain),")
+		g.p("// decoded into a message whose field is nil or already populated")
+		g.p("func VH_C07_%s_%s_rec() {", n, f.GoName)
+		g.p("\tpayload := vhBytes(\"payload\", 3)")
+		g.p("\tbuf := protowire.AppendTag([]byte{}, %d, protowire.BytesType)", f.Number)
+		g.p("\tbuf = protowire.AppendBytes(buf, payload)")
+		g.p("\tif vhChoice(\"twice\", 2) == 1 {")
+		g.p("\t\tbuf = protowire.AppendTag(buf, %d, protowire.BytesType)", f.Number)
+		g.p("\t\tbuf = protowire.AppendBytes(buf, vhBytes(\"payload2\", 3))")
+		g.p("\t}")
+		g.p("\tsnap := vhSnapshot(buf)")
+		g.p("\tx := &%s{}", n)
+		g.p("\terr := vhUnmarshalStep_%s(x, buf, 0)", n)
+		g.p("\tvhAssert(\"accepts\", err == nil)")
+		g.p("\tvhAssert(\"input.unmodified\", vhUnchanged(buf, snap))")
+		g.p("\tvhNoAlias_%s(\"noalias\", x, buf)", n)
+		g.p("}")
+		g.p("")
+	}
 	g.p("// Size and Marshal write nothing that existed before the call; output shares no memory with the message")
 	g.p("func VH_C07_%s_%s_enc() {", n, f.GoName)
 	g.p("\tx := &%s{}", n)
@@ -86,6 +106,7 @@ func (g *gen) aliasHarness(m *Message, f *Field) {
 	g.p("\tmsg := x.ProtoReflect()")
 	g.p("\tmethods := msg.ProtoMethods()")
 	g.p("\tflags := vhFlags(\"det\")")
+	g.p("\tvhWatch(x)")
 	g.p("\tvhEpoch()")
 	g.p("\tvhTrack(true)")
 	g.p("\t_ = methods.Size(protoiface.SizeInput{Message: msg, Flags: flags})")
@@ -108,6 +129,9 @@ func (g *gen) detDriver(m *Message) {
 	g.p("\tmsg := x.ProtoReflect()")
 	g.p("\tvhMapOrderAll(true)")
 	g.p("\tout1, err1 := msg.ProtoMethods().Marshal(protoiface.MarshalInput{Message: msg, Flags: protoiface.MarshalDeterministic})")
+	g.p("\t// every iteration order of the first run is compared with ONE fixed order of the later runs:")
+	g.p("\t// by transitivity any two orders give the same bytes")
+	g.p("\tvhMapOrderAll(false)")
 	g.p("\tout2, err2 := msg.ProtoMethods().Marshal(protoiface.MarshalInput{Message: msg, Flags: protoiface.MarshalDeterministic})")
 	g.p("\tvhAssert(\"noerr\", err1 == nil && err2 == nil)")
 	g.p("\tvhAssertBytesEq(\"repeat\", out1.Buf, out2.Buf)")
@@ -309,6 +333,7 @@ func (g *gen) aliasUnknown(m *Message) {
 	g.p("\tx.unknownFields = vhUnknown_%s(\"u\")", n)
 	g.p("\tmsg := x.ProtoReflect()")
 	g.p("\tmethods := msg.ProtoMethods()")
+	g.p("\tvhWatch(x)")
 	g.p("\tvhEpoch()")
 	g.p("\tvhTrack(true)")
 	g.p("\t_ = methods.Size(protoiface.SizeInput{Message: msg})")
